@@ -13,6 +13,8 @@ pub mod geometry;
 pub mod projections;
 #[cfg_attr(not(test), allow(unused))]
 pub mod utils;
+#[cfg(feature = "verif")]
+pub mod verif;
 
 // PUBLIC API
 // Indexing
